@@ -709,7 +709,8 @@ class World:
     """Context manager that installs every seam, and removes it again."""
 
     def __init__(self, stdin_data=None, stdin_sched=None, stdout_sched=None, stdin_damaged=(),
-                 vcwd=None, stdout_unbuffered=False, environ=None, stdin_file=None, tty=False):
+                 vcwd=None, stdout_unbuffered=False, environ=None, stdin_file=None, tty=False,
+                 stdout_encoding="utf-8"):
         self.fs = SimFS()
         self.vcwd = (vcwd or VCWD).rstrip("/") + "/"
         self.log = self.fs.log
@@ -739,7 +740,7 @@ class World:
             self.stdout_sched = ChunkSchedule("whole", 0)
         self.stdout_raw = SimRawSink(self.stdout_sched, self.log)
         self.stdout_buf = self.stdout_raw if stdout_unbuffered else io.BufferedWriter(self.stdout_raw)
-        self.stdout_txt = io.TextIOWrapper(self.stdout_buf, encoding="utf-8", newline="\n",
+        self.stdout_txt = io.TextIOWrapper(self.stdout_buf, encoding=stdout_encoding, newline="\n",
                                            write_through=stdout_unbuffered)
         self.stdout_txt.mode = "w"
         self.stderr = io.StringIO()
